@@ -22,8 +22,8 @@ PROPS["C11"] = {
     "level_note": ("Trusted: math/big, verifref (RFC 9496 vectors reproduced in its self-test), rapid. Not asserted: SetCompressed's receiver "
                    "after an error (undocumented; UnmarshalBinary's is: identity); the bytes produced for curve points outside 2E (they "
                    "represent no element; only Equal = 0 and 'differs from the element's encoding' are required); Sum with the receiver among "
-                   "the values; triple-base scalars are canonical (reduction of its inputs is C16's subject). No native-fuzz campaign: the "
-                   "constructed string classes dominate blind byte mutation for this decoder."),
+                   "the values; triple-base scalars are canonical (reduction of its inputs is C16's subject). The thorough tier adds a 60 s native-fuzz "
+                   "campaign (no coverage guidance) over the decoder / wrong-length checks; its executions are not counted in the evidence numbers."),
     "rule": ("rapid-generated cases: 32-byte decoder strings from 18 classes (valid [a]B / Elligator images / search, p-s, bit 255, s+p, |1/s|, "
              "non-square and t-negative by deterministic search from a drawn start, RFC bad list, bit mutations, small and p-small, boundary "
              "catalogue, uniform even, uniform), other lengths; elements [a]B (a = 0, tiny, small, L-tiny, catalogue, uniform) in 4 coset "
@@ -47,6 +47,11 @@ PROPS["C11"] = {
             "TestC11Ops": T(800, 20000, shards={"quick": 8, "thorough": 16}),
             "TestC11ManyTerms": T(24, 1000, shards={"quick": 2, "thorough": 8}),
             "TestC11Constants": LIST(),
+            # thorough only: Go native fuzzing (no coverage guidance in a -c binary; mutation from the RFC/boundary seeds)
+            # over the same pure decoder / wrong-length checks; hitting the time budget is a pass
+            "FuzzC11Decode": LIST(quick=None, configs=["default"], timeout=900,
+                                  args=["-test.fuzz=^FuzzC11Decode$", "-test.fuzztime=60s", "-test.parallel=8",
+                                        "-test.fuzzcachedir=fuzzcache-c11"]),
         },
     }],
 }
